@@ -906,6 +906,11 @@ func c09Run(c c09Case) (verifkit.Outcome, error) {
 	labels := map[string]bool{}
 	for ci, cl := range c.Calls {
 		cs, err := w.call(ci, cl)
+		if time.Since(w.base) > 15*time.Second {
+			// the machine stalled: the 30 s margins no longer protect the
+			// verdict, so there is none
+			return verifkit.Outcome{Skip: true}, nil
+		}
 		if err != nil {
 			o.Desc = c09Desc(c)
 			return o, err
@@ -1070,15 +1075,27 @@ func c09Gen(t *rapid.T) c09Case {
 		}
 	}
 	for i := range c.Calls {
-		if rapid.IntRange(0, 3).Draw(t, "max-free") == 0 {
-			c.Calls[i].Max = rapid.IntRange(0, 40).Draw(t, "max")
-		} else {
-			m := nready + rapid.IntRange(-6, 2).Draw(t, "max-delta")
-			if m < 0 {
-				m = 0
+		// mostly near the number of ready changes that are within the
+		// retention period, so that both rules have something to say
+		young := 0
+		for _, ch := range c.Changes {
+			if ch.ReadyMin >= 0 && !c09Older(ch.ReadyMin, c.Calls[i].PruneMin) {
+				young++
 			}
-			c.Calls[i].Max = m
 		}
+		m := 0
+		switch rapid.IntRange(0, 5).Draw(t, "max-how") {
+		case 0:
+			m = rapid.IntRange(0, 40).Draw(t, "max")
+		case 1:
+			m = nready + rapid.IntRange(-6, 2).Draw(t, "max-delta")
+		default:
+			m = young + rapid.IntRange(-4, 1).Draw(t, "max-delta")
+		}
+		if m < 0 {
+			m = 0
+		}
+		c.Calls[i].Max = m
 	}
 	for i, n := 0, rapid.IntRange(0, 4).Draw(t, "nloose"); i < n; i++ {
 		c.Loose = append(c.Loose, c09Loose{SpawnMin: c09GenAge(t, marks, "loose-age"), St: rapid.SampledFrom([]string{"do", "do", "done", "hold"}).Draw(t, "loose-st")})
